@@ -241,7 +241,10 @@ void h_load(void)
       }
     }
   }
-  COVER(ok && nsyms == NSYM && recorded(0) && recorded(NSYM - 1)); COVER(NSYM < 2 || (ok && is_kernel && namesel[0] == 4 && namesel[NSYM - 1] == 2 && recorded(NSYM - 1)));
+#if !(defined(KSYM_CONCRETE) && NSYM > 2)   /* (three-entry run: a kernel binary, entry 0 is a __ksymtab_ marker, never recorded) */
+  COVER(ok && nsyms == NSYM && recorded(0) && recorded(NSYM - 1));
+#endif
+  COVER(NSYM < 2 || (ok && is_kernel && namesel[0] == 4 && namesel[NSYM - 1] == 2 && recorded(NSYM - 1)));
 #ifndef KSYM_CONCRETE
   COVER(ok && nsyms > 0 && !recorded(0) && namesel[0] == 2); COVER(!ok && have_scn && have_data && sh_entsize);
 #else
